@@ -43,6 +43,40 @@ def fs(r):
     return tuple(frozenset(g) for g in r)
 
 
+def psn(x):
+    """content snapshot of a profile / tuple of ballots / ballot, used to show that a utility left its input alone"""
+    if hasattr(x, "ballots"):
+        return (tuple(x.candidates), psn(tuple(x.ballots)), x.num_ballots, x.total_ballot_wt)
+    if isinstance(x, (tuple, list)):
+        return tuple(psn(b) for b in x)
+    return (x.ranking, tuple(sorted((x.scores or {}).items())), x.weight, x.id)
+
+
+def rsn(v):
+    """order-free content of a result (profile, ballots, ballot)"""
+    if hasattr(v, "ballots"):
+        return (tuple(v.candidates), tuple(sorted(map(repr, ms2(v.ballots).items()))))
+    if isinstance(v, (tuple, list)):
+        return tuple(sorted(map(repr, ms2(v).items())))
+    return psn(v)
+
+
+def repeatable(ctx, case, label, fn, first, inputs, before):
+    """the same call on the same objects once more: same answer, inputs untouched"""
+    ctx.count("repeated_calls_on_same_objects")
+    if [psn(x) for x in inputs] != before:
+        ctx.fail(f"{label} changed its input", case, {})
+        return False
+    o = observe(fn)
+    if not o.ok or rsn(o.value) != rsn(first):
+        ctx.fail(f"{label}: a second call on the same objects gives another answer", case, {"second": repr(o)[:200]})
+        return False
+    if [psn(x) for x in inputs] != before:
+        ctx.fail(f"{label} changed its input (second call)", case, {})
+        return False
+    return True
+
+
 def check_remove(ctx, case):
     import votekit.utils as U
 
@@ -50,6 +84,7 @@ def check_remove(ctx, case):
     prof = canon.build_profile(spec)
     bl = prof.ballots
     cands = spec["cands"]
+    before = psn(prof)
 
     def img(b):
         return tuple(s2 for s2 in (frozenset(x for x in s if x not in rem) for s in (b.ranking or ())) if s2)
@@ -117,6 +152,9 @@ def check_remove(ctx, case):
                 if condense and len({(tuple(b.ranking) if b.ranking else (), frozenset((b.scores or {}).items())) for b in obs}) != len(obs):
                     ctx.fail(f"{lab}: condensed result has duplicate ballots", case, {})
                     return
+    if psn(prof) != before:
+        ctx.fail("remove_cand changed its input profile", case, {})
+        return
     # single ballot form
     for b in bl[:2]:
         o = observe(U.remove_cand, rem, b)
@@ -139,6 +177,7 @@ def check_add_missing(ctx, case):
     spec = case["profile"]
     prof = canon.build_profile(spec)
     cands = set(spec["cands"])
+    before = [psn(prof)]
     o = observe(U.add_missing_cands, prof)
     ctx.count("add_missing_calls")
     ctx.case(case, nontrivial=any(len(cands - {c for g in b.ranking for c in g}) >= 2 for b in prof.ballots))
@@ -155,6 +194,8 @@ def check_add_missing(ctx, case):
         return
     if set(o.value.candidates) != cands:
         ctx.fail("add_missing_cands changed the candidate set", case, {})
+        return
+    repeatable(ctx, case, "add_missing_cands", lambda: U.add_missing_cands(prof), o.value, [prof], before)
 
 
 def check_expand(ctx, case):
@@ -163,6 +204,7 @@ def check_expand(ctx, case):
     spec = case["profile"]
     cands, plain = canon.plain(spec)
     prof = canon.build_profile(spec)
+    before = [psn(prof)]
     for b in prof.ballots[:3]:
         o = observe(U.expand_tied_ballot, b)
         ctx.count("expand_calls")
@@ -183,6 +225,8 @@ def check_expand(ctx, case):
             if any(len(s) != 1 for s in x.ranking) or set(flat) != set(pos) or [pos[c] for c in flat] != sorted(pos[c] for c in flat):
                 ctx.fail("expand_tied_ballot: an output is not a linear order consistent with the ballot", case, {})
                 return
+        if not repeatable(ctx, case, "expand_tied_ballot", lambda b=b: U.expand_tied_ballot(b), ex, [prof], before):
+            return
     o = observe(U.resolve_profile_ties, prof)
     ctx.case(case, nontrivial=any(len(g) >= 2 for r, w, _ in plain for g in r))
     if not o.ok:
@@ -201,6 +245,8 @@ def check_expand(ctx, case):
         m1, m2 = pairwise.margins(cands, plain), pairwise.margins(cands, p2)
         if m1 != m2:
             ctx.fail("resolve_profile_ties changed pairwise totals", case, {})
+            return
+    repeatable(ctx, case, "resolve_profile_ties", lambda: U.resolve_profile_ties(prof), res, [prof], before)
 
 
 def check_cleaning(ctx, case):
@@ -211,9 +257,13 @@ def check_cleaning(ctx, case):
     ubl = [Ballot(ranking=tuple(frozenset([x]) for x in r), weight=canon.pf(w)) for r, w in case["ballots"]]
     up = PreferenceProfile(ballots=tuple(ubl))
     nc = case["noncands"]
+    nc0 = list(nc)
+    before = [psn(up)]
+    firsts = []
     ctx.case(case, nontrivial=any(len(set(r)) < len(r) for r, w in case["ballots"]) and bool(nc))
     # deduplicate
     o = observe(C.deduplicate_profiles, up)
+    firsts.append(("deduplicate_profiles", lambda: C.deduplicate_profiles(up), o))
     ctx.count("cleaning_calls")
     e3 = {}
     for b in ubl:
@@ -228,6 +278,7 @@ def check_cleaning(ctx, case):
         return
     # remove_noncands: must delete non-candidates; de-duplication of repeats is optional
     o = observe(C.remove_noncands, up, nc)
+    firsts.append(("remove_noncands", lambda: C.remove_noncands(up, nc), o))
     ctx.count("cleaning_calls")
     if not o.ok:
         ctx.fail(f"remove_noncands raised {o.etype}", case, {"msg": str(o.exc)[:200]})
@@ -262,12 +313,14 @@ def check_cleaning(ctx, case):
             return
     # clean_profile with the identity and with a truncation rule; merge_ballots
     o = observe(C.clean_profile, up, lambda b: b)
+    firsts.append(("clean_profile(identity)", lambda: C.clean_profile(up, lambda b: b), o))
     ctx.count("cleaning_calls")
     if not o.ok or ms(o.value.ballots) != ms(ubl):
         ctx.fail("clean_profile(identity) changed the ranking weights", case, {})
         return
     trunc = lambda b: Ballot(ranking=b.ranking[:1], weight=b.weight)  # noqa
     o = observe(C.clean_profile, up, trunc)
+    firsts.append(("clean_profile(truncate)", lambda: C.clean_profile(up, trunc), o))
     e5 = {}
     for b in ubl:
         e5[b.ranking[:1]] = e5.get(b.ranking[:1], F(0)) + b.weight
@@ -279,6 +332,14 @@ def check_cleaning(ctx, case):
     ctx.count("cleaning_calls")
     if not o.ok or o.value.ranking != ubl[0].ranking or o.value.weight != sum((b.weight for b in same), F(0)):
         ctx.fail("merge_ballots: wrong ranking or weight", case, {})
+        return
+    firsts.append(("merge_ballots", lambda: C.merge_ballots(same), o))
+    if nc != nc0:
+        ctx.fail("remove_noncands changed the list of names it was given", case, {})
+        return
+    for label, fn, o1 in firsts:
+        if not repeatable(ctx, case, label, fn, o1.value, [up], before):
+            return
 
 
 def check_realistic(ctx):
